@@ -86,7 +86,7 @@ def ret_err_sites(fn, R):
                     out.append((bi, err_variant(e), s))
         # `opt.ok_or(E)?` / `res.map_err(..)?`-free form: the residual handed to from_residual carries E
         t = b["term"]
-        if t["k"] == "call" and t["dest"]["local"] == 0 and not t["dest"]["proj"] and (t["callee"].get("def") or "").endswith("FromResidual::from_residual") and t["args"]:
+        if t["k"] == "call" and not t["dest"]["proj"] and (t["dest"]["local"] == 0 or result_err_compatible(fn, t["dest"]["local"], rty)) and (t["callee"].get("def") or "").endswith("FromResidual::from_residual") and t["args"]:
             ae = strip_bb(R.op(t["args"][0]))
             c = find_call(ae, ("Option::<T>::ok_or",))
             if c is not None and len(c[3]) >= 2:
